@@ -23,6 +23,7 @@ import NemoVerif.Lemmas.ErrContain
 import NemoVerif.Lemmas.RoundMachine
 import NemoVerif.Lemmas.SlideGraphComplete
 import NemoVerif.Lemmas.ErrFrameAdvVM
+import NemoVerif.Lemmas.ErrFrameCorVM
 import NemoVerif.Lemmas.SlideStepVM
 
 namespace NemoVerif.C10
@@ -541,6 +542,30 @@ theorem vm_advance_frame (G : FUid → Prop) (fuel : Nat) (heads : List Key) (hH
     Closed G (outState (advanceHeadFront fuel heads s)) ∧ FrameOut G s (outState (advanceHeadFront fuel heads s)) :=
   (Fr.advanceHeadFront fuel heads hH).app s hc
 
+/-- **the faulty run and the run in which the faulty statement is replaced by `abort`** agree outside the faulty family.
+    `s` and `sA` are the states before `_advance_head_front` in the two runs: they may differ in the program (the replaced
+    statement) and inside `G`, and agree outside `G`.  Whatever the two calls do — the faulty one raises inside `slide` and goes
+    through the `except` branch, the other executes `abort` — every instance outside `G` ends with the same status, heads,
+    head positions / statuses, head data and the same record (context included; child lists apart) in both runs. -/
+theorem vm_faulty_vs_abort (G : FUid → Prop) (fuel fuelA : Nat) (heads headsA : List Key)
+    (hH : ∀ k ∈ heads, G k.1) (hHA : ∀ k ∈ headsA, G k.1) (s sA : VM) (hc : Closed G s) (hcA : Closed G sA)
+    (hix : ∀ g, ¬ G g → findInst s.ixs.ix g = findInst sA.ixs.ix g)
+    (hhx : ∀ g h, ¬ G g → OMap.lookup (g, h) s.r.hx = OMap.lookup (g, h) sA.r.hx)
+    (hfx : ∀ g, ¬ G g → OMap.lookup g s.r.fx = OMap.lookup g sA.r.fx) :
+    let o := outState (advanceHeadFront fuel heads s)
+    let oA := outState (advanceHeadFront fuelA headsA sA)
+    (∀ g, ¬ G g → findInst o.ixs.ix g = findInst oA.ixs.ix g) ∧
+    (∀ g h, ¬ G g → OMap.lookup (g, h) o.r.hx = OMap.lookup (g, h) oA.r.hx) ∧
+    (∀ g, ¬ G g → (OMap.lookup g o.r.fx).map (fun x => { x with childFlowUids := [] }) =
+                   (OMap.lookup g oA.r.fx).map (fun x => { x with childFlowUids := [] })) := by
+  intro o oA
+  have f1 := (vm_advance_frame G fuel heads hH s hc).2
+  have f2 := (vm_advance_frame G fuelA headsA hHA sA hcA).2
+  refine ⟨fun g hg => ?_, fun g h hg => ?_, fun g hg => ?_⟩
+  · rw [f1.ix g hg, f2.ix g hg, hix g hg]
+  · rw [f1.hx g h hg, f2.hx g h hg, hhx g h hg]
+  · rw [ctx_of_frame f1 g hg, ctx_of_frame f2 g hg, hfx g hg]
+
 /-! ### step labelling: CoreVM micro-steps are steps of the abstract models (phase 4, goal 3) -/
 
 /-- one non-stopping iteration of CoreVM's `slide` loop moves the head along an EDGE of the sliding graph of the classified
@@ -635,4 +660,52 @@ example : ∃ s', advanceHeadFront 4 [("f", "h")] demoVM2 = .ok [] s' ∧
     findInst s'.ixs.ix "g" = findInst demoVM2.ixs.ix "g" ∧ OMap.lookup "g" s'.r.fx = OMap.lookup "g" demoVM2.r.fx ∧
     (findInst s'.ixs.ix "f").map (·.status) = some .stopped :=
   ⟨_, rfl, rfl, rfl, rfl⟩
+
+/-- the same state over the program in which the faulty statement is replaced by `abort` -/
+def demoCfgA : FlowCfg := { demoCfg with elements := #[.other, .abort] }
+def demoVM2A : VM := { demoVM2 with r := { demoVM2.r with prog := ⟨[demoCfgA]⟩ } }
+theorem demo_closedA : Closed (· = "f") demoVM2A := demo_closed
+
+/-- non-vacuity of `vm_faulty_vs_abort`: its hypotheses hold of the two concrete runs, and both runs, computed by the kernel,
+    end with `f` STOPPED and the bystander `g` exactly as it was -/
+example : Closed (· = "f") demoVM2 ∧ Closed (· = "f") demoVM2A ∧
+    (∀ g, ¬ g = "f" → findInst demoVM2.ixs.ix g = findInst demoVM2A.ixs.ix g) ∧
+    (∀ g h, ¬ g = "f" → OMap.lookup (g, h) demoVM2.r.hx = OMap.lookup (g, h) demoVM2A.r.hx) ∧
+    (∀ g, ¬ g = "f" → OMap.lookup g demoVM2.r.fx = OMap.lookup g demoVM2A.r.fx) :=
+  ⟨demo_closed, demo_closedA, fun _ _ => rfl, fun _ _ _ => rfl, fun _ _ => rfl⟩
+example : ∃ s', advanceHeadFront 4 [("f", "h")] demoVM2A = .ok [] s' ∧
+    findInst s'.ixs.ix "g" = findInst demoVM2.ixs.ix "g" ∧ (findInst s'.ixs.ix "f").map (·.status) = some .stopped :=
+  ⟨_, rfl, rfl, rfl⟩
+
+/-- non-vacuity of `vm_abort_postcondition` -/
+example : ∃ i s', findInst demoVM.ixs.ix "f" = some i ∧ (i.status.listening = true ∨ i.status = .stopping) ∧
+    abortFlow 2 "f" [] false demoVM = .ok () s' := ⟨_, _, rfl, Or.inl rfl, rfl⟩
+
+/-- non-vacuity of `corevm_slide_step_is_edge` (the head of `demoVM` stands on the no-op element 0) -/
+example : ∃ hd s', cfgOfInst "f" demoVM = .ok demoCfg demoVM ∧
+    (findInst demoVM.ixs.ix "f").bind (·.findHead "h") = some hd ∧
+    slideStep 3 "f" "h" demoVM = .ok (false, []) s' ∧
+    (∀ n, demoCfg.elements[hd.pos]? ≠ some (.endScope n)) ∧
+    (∀ u, demoCfg.elements[hd.pos]? = some (.merge u) → hd.status = .active) ∧
+    (demoCfg.elements[hd.pos]? = some .abort → CatchNamesOk demoCfg ((OMap.lookup ("f", "h") demoVM.r.hx).getD {})) :=
+by
+  refine ⟨_, _, rfl, rfl, rfl, ?_, ?_, ?_⟩
+  · intro n h; cases h
+  · intro u h; cases h
+  · intro h; cases h
+
+/-- non-vacuity of `corevm_slide_error_position`: after `head.position += 1` the head stands on `$x = boom`, which raises -/
+example : ∃ s1 hd s' c m, setHeadPos ("f", "h") 1 demoVM = .ok () s1 ∧ cfgOfInst "f" s1 = .ok demoCfg s1 ∧
+    (findInst s1.ixs.ix "f").bind (·.findHead "h") = some hd ∧ hd.pos < demoCfg.elements.size ∧
+    (demoCfg.elements[hd.pos]!).slides = true ∧ slideStep 3 "f" "h" s1 = .error (.py c m) s' :=
+  ⟨_, _, _, _, _, rfl, rfl, rfl, by decide, rfl, rfl⟩
+
+/-- non-vacuity of `corevm_step_is_machine_step` -/
+example : ∃ (P : RoundMachine.RProg) (fl : RoundMachine.RFlow) (i : Inst) (hd : Head) (b : Bool × List Key) (s' : VM),
+    cfgOfInst "f" demoVM = .ok demoCfg demoVM ∧ findInst demoVM.ixs.ix "f" = some i ∧ i.findHead "h" = some hd ∧
+    hd.pos < demoCfg.elements.size ∧ hd.status ≠ .inactive ∧ (demoCfg.elements[hd.pos]!).simple = true ∧
+    i.status.listening = true ∧ (OMap.lookup "f" (fxIds demoVM.r.fx)).bind (fun _ => some 0) = some 0 ∧
+    P[0]? = some fl ∧ fl.ctl = classify demoCfg ∧ fl.emit.getD hd.pos [] = [] ∧ slideStep 3 "f" "h" demoVM = .ok b s' :=
+  ⟨[{ ctl := classify demoCfg, emit := [[], []], wk := [.ext, .ext], restartable := false }], _, _, _, _, _,
+    rfl, rfl, rfl, by decide, by decide, rfl, rfl, rfl, rfl, rfl, rfl, rfl⟩
 end NemoVerif.C10.VM
